@@ -1,9 +1,10 @@
-\* the transcribed current protocol, explored completely; transitions are emitted with the
-\* verdict of OutcomeOK on the successor (Atomic is NOT an invariant here: see MC_AtomicWrite_cx.cfg)
+\* the transcribed current protocol, explored completely: Atomic holds; transitions are emitted
+\* with the verdict of OutcomeOK on the successor
 SPECIFICATION FairSpec
 CONSTANTS
   Configs <- CurrentConfigs
   PreStates = {"absent", "Old"}
 INVARIANT TypeOK
+INVARIANT Atomic
 PROPERTY HappyPathSucceeds
 PROPERTY Terminates
